@@ -96,7 +96,16 @@ def run(ctx):
     SC.corr_sample(ctx, ss[: (30 if ctx.quick else 200)])
     # settings combinations
     sreqs, sinfo = [], []
-    for si, s in enumerate(ss[: (8 if ctx.quick else 40)]):
+    nset = 8 if ctx.quick else 40
+    for si in range(nset, min(len(ss), nset + nset // 2)):
+        # the same samplers at a point with an exactly zero xi (kappa = 0: the L matrix degenerates, its inversion error is NaN)
+        s0 = ss[si]; n0 = len(s0["case"]["edges"])
+        if n0 >= 3:
+            xs0 = list(s0["xs"]); xs0[rng.choice(range(1, 2 * n0 - 2, 2))] = 0.0
+            s1 = dict(s0, xs=xs0, req=S.sample_request(s0["case"], s0["routing"], s0["table"], xs0))
+            s1["impl"] = run_harness([s1["req"]])[0]
+            ss[si] = s1
+    for si, s in enumerate(ss[: nset + nset // 2]):
         for tol in (None, 1e300, 0.0, 1e-17):
             for dbg in (False, True):
                 for meta in (False, True):
